@@ -2,7 +2,11 @@
 Correspondence: Model/Base.v (and the NumPy primitive model of Base/Tensor.v) vs tensorly/base.py and the backend's
 reshape / moveaxis / transpose dispatch, bit-exact, signed modes, size-0 / size-1 modes, invalid requests.
 Predicates (Python transcriptions of the theorems, evaluated on the implementation's outputs): documented layout formula,
-round trips, exact success domain, dtype/bytes preservation for every dtype and memory layout."""
+round trips, exact success domain, dtype/bytes preservation for every dtype and memory layout, documented default arguments,
+repeated calls with one mutable `shape` list.
+Source tie (run_ast_tie): the statement-by-statement model of Model/BasePy.v / BasePyCore.v is regenerated from the current
+source of tensorly/base.py and of Backend.moveaxis (tensorly/backend/core.py) by harness/props/C01_ast.py and re-proved equal in Coq;
+every case is evaluated on that model over arrays carrying a dtype tag (the dtype codes come from the dtype re-run)."""
 import itertools, os, random, re, shutil, subprocess, zlib
 import numpy as np
 from harness import common as C
@@ -169,8 +173,14 @@ def gen_cases(tier, rng):
     else:
         shp = [()] + list(shapes([1, 2, 3, 4, 5], [1, 2, 3]))
         for _ in range(200):
-            o = rng.randint(1, 5)
-            shp.append(tuple(rng.randint(1, 6) for _ in range(o)))
+            # at most 720 entries: the index-level model is quadratic in the number of entries, and a handful of order-5
+            # shapes with several thousand entries used to account for most of the thorough tier's Coq time
+            while True:
+                o = rng.randint(1, 5)
+                cand = tuple(rng.randint(1, 6) for _ in range(o))
+                if int(np.prod(cand)) <= 720:
+                    break
+            shp.append(cand)
     for s in shp:
         yield from gen_shape(s, tier, rng, light=False)
     if tier != "quick":
@@ -581,6 +591,10 @@ def _coqc(fn, timeout=600):
                           capture_output=True, text=True, cwd=os.path.dirname(fn))
 
 
+def _qual(name):
+    return "tensorly.backend.core.Backend.moveaxis" if name == "moveaxis_generic" else "tensorly.base." + name
+
+
 def run_ast_tie(chk):
     """Regenerate the model of every function of tensorly/base.py from the CURRENT source (harness/props/C01_ast.py) and
     re-prove, for ALL backends and arguments, that it is the hand model g_f of Model/BasePy.v (to which the theorems
@@ -607,7 +621,7 @@ def run_ast_tie(chk):
     for name, text, why in items:
         if text is None:
             res["untranslated"].append(f"{name}: {why}")
-            chk.broken.append({"what": f"ast tie: {'tensorly.backend.core.Backend.moveaxis' if name == 'moveaxis_generic' else 'tensorly.base.' + name} is outside the translated fragment (the model cannot be regenerated from the source)",
+            chk.broken.append({"what": f"ast tie: {_qual(name)} is outside the translated fragment (the model cannot be regenerated from the source)",
                                "detail": why})
     if dflt != C01_ast.DOCUMENTED_DEFAULTS:
         diff = {f"{k[0]}.{k[1]}": (dflt.get(k), C01_ast.DOCUMENTED_DEFAULTS.get(k)) for k in set(dflt) | set(C01_ast.DOCUMENTED_DEFAULTS)
@@ -658,10 +672,10 @@ def run_ast_tie(chk):
         if r.returncode in (124, 137, -9, -15):
             res["skipped"].append(name)
         elif r.returncode != 0 or not m:
-            chk.broken.append({"what": f"ast tie: the model regenerated from tensorly.base.{name} is not the hand model g_{name} (neither proof nor box evaluation go through)",
+            chk.broken.append({"what": f"ast tie: the model regenerated from {_qual(name)} is not the hand model g_{name} (neither proof nor box evaluation go through)",
                                "detail": {"regenerated": [t for n_, t, _ in items if n_ == name][0], "coqc": (log + r.stdout + r.stderr)[-1500:]}})
         elif int(m.group(1)) > 0:
-            chk.broken.append({"what": f"ast tie: the model regenerated from tensorly.base.{name} DIFFERS from the hand model g_{name} of Model/BasePy.v "
+            chk.broken.append({"what": f"ast tie: the model regenerated from {_qual(name)} DIFFERS from the hand model g_{name} of Model/BasePy.v / BasePyCore.v "
                                        f"on {m.group(1)} requests of the box (first ones shown)",
                                "detail": {"regenerated": [t for n_, t, _ in items if n_ == name][0], "differing_requests": r.stdout[-800:]}})
         else:
@@ -832,7 +846,7 @@ def run(chk):
     chk.cov["exhaustive"] = True
     chk.cov["dtype_layout_combinations_per_function"] = {f: sum(1 for x in seen_combo if x[0] == f) for f in sorted({x[0] for x in seen_combo})}
     chk.cov["rule"] = ("every tensor shape of order 0-4 over mode sizes {1,2,3}, plus every shape of order 1-3 over {0,1,2,3} that has an empty mode "
-                       "(thorough: order<=5, +200 random shapes, every order-6 shape over {1,2} with sampled arguments; order-4 shapes with an empty mode, orders 5-11 over {1,2} and orders 5-6 over {1,2,3} "
+                       "(thorough: order<=5, +200 random shapes with sizes <= 6 and at most 720 entries, every order-6 shape over {1,2} with sampled arguments; order-4 shapes with an empty mode, orders 5-11 over {1,2} and orders 5-6 over {1,2,3} "
                        "are SAMPLED, not exhaustive) x every function of tensorly/base.py x every signed mode -n..n-1 (+1 invalid at either end) x every "
                        "(skip_begin, skip_end, ravel) split with every documented mode 0 <= mode < ndim-skip_begin-skip_end (plus one non-existent mode; requests whose moved axis overlaps a skipped block are garbage-in and not generated) "
                        "x every ordered row/column split of matricize (order<=3; sampled above) + invalid requests "
@@ -848,7 +862,9 @@ def run(chk):
     chk.assumptions = ["NumPy reshape/moveaxis/transpose behave as modelled in Base/Tensor.v (checked on this run's primitive cases and, through the "
                        "dtype/layout re-runs, on F-contiguous, strided and negative-stride views)",
                        "tensor data are compared as lists of labels / bytes of the logical row-major order; memory layout of the result is not part of the property"]
-    chk.trusted = ["the packed-literal decoder Corr.C01.unpack (a decoding error shows up as a disagreement, never as silent agreement on different data, "
+    chk.trusted = ["the ast translator harness/props/C01_ast.py (Python ast -> Gallina over the abstract backend) and the Python list / int semantics of "
+                   "Model/BasePy.v (py_getitem, py_pop, py_insert, py_range1/3, rmapM, py_sorted); a construct outside its fragment is reported as a broken tie",
+                   "the packed-literal decoder Corr.C01.unpack (a decoding error shows up as a disagreement, never as silent agreement on different data, "
                    "because both sides are decoded from literals the harness printed from the implementation's arrays)"]
     return chk.finish()
 
